@@ -298,10 +298,16 @@ pub fn write_font_file(options: &Options, be_context: &BeContext) -> Result<(), 
                     source,
                 });
             }
-            fs::rename(ir_path, output_file).map_err(|source| Error::FileIo {
-                path: output_file.clone(),
-                source,
-            })?;
+            // rename cannot cross filesystems; the build directory and the output may be
+            // on different ones, and without --emit-ir that is no obstacle
+            if let Err(source) = fs::rename(ir_path, output_file) {
+                fs::copy(ir_path, output_file)
+                    .and_then(|_| fs::remove_file(ir_path))
+                    .map_err(|_| Error::FileIo {
+                        path: output_file.clone(),
+                        source,
+                    })?;
+            }
         }
         None => {
             // No IR: write from memory
